@@ -248,3 +248,11 @@ Example C15_ex_no_switch_v4 :
   session raw_fc ex_sc ends0 (ex_events 4) (ex_delivered 4) ends0 /\
   joint_run raw_fc ex_sc ends0 (ex_events 4) = (ends0, ex_delivered 4, RxOk).
 Proof. exact (conj ex_session_v4 (proj1 ex_no_switch_v4)). Qed.
+
+(* the frame instance (C15_modern_delivery_frames) is not vacuous: a message codec for the two messages without body meets
+   its hypotheses, and three OPTIONS frames of model/Frame.v travel through a segmentation (two grouped, one carried by a
+   non-self-contained segment) *)
+Example C15_ex_frames_instance :
+  exists wire, encode_wire ex_sc CNone exf_segments = Ok wire /\
+               rx_all exf_fc ex_sc Server modern0 wire = (modern0, map exf_nf exf_frames, RxOk).
+Proof. exact ex_frames_instance. Qed.
